@@ -225,8 +225,14 @@ class RootOracle:
         v[s] = v[s] - acc
 
     def _sign(self, v):
-        pos = any(x > self.half for x in v)
-        neg = any(x < -self.half for x in v)
+        h = self.half
+        nh = -h
+        pos = neg = False
+        for x in v:
+            if x > h:
+                pos = True
+            elif x < nh:
+                neg = True
         if pos == neg:
             raise OracleError("root oracle lost precision (vector %r)" % (v,))
         return 1 if pos else -1
